@@ -128,6 +128,26 @@ class Lin:          # kr*rem + ky*y
         return f"{self.kr}*rem+{self.ky}*y"
 
 
+class AX:           # kq*quot*y + kr*rem + ky*y   (x itself is AX(1, 1, 0))
+    def __init__(self, kq, kr, ky):
+        self.kq, self.kr, self.ky = Fraction(kq), Fraction(kr), Fraction(ky)
+
+    def __repr__(self):
+        return f"{self.kq}*quot*y+{self.kr}*rem+{self.ky}*y"
+
+
+def _as_ax(v):
+    if v == "X":
+        return AX(1, 1, 0)
+    if v == "NX":
+        return AX(-1, -1, 0)
+    if isinstance(v, AX):
+        return v
+    if isinstance(v, Lin):
+        return AX(0, v.kr, v.ky)
+    return None
+
+
 class Mode:
     def __init__(self, name):
         self.name = name
@@ -438,6 +458,8 @@ class TableEval:
                     return AQ(-v.c, -v.s)
                 if v in ("X", "NX"):
                     return "NX" if v == "X" else "X"
+                if isinstance(v, AX):
+                    return AX(-v.kq, -v.kr, -v.ky)
             self.bad(n, "unary")
         if isinstance(n, ast.BoolOp):
             if isinstance(n.op, ast.And):
@@ -610,6 +632,28 @@ class TableEval:
         if isinstance(op, ast.Mult) and ((isinstance(l, AQ) and l.c == 0 and isinstance(r, Lin) and (r.kr, r.ky) == (0, 1)) or
                                          (isinstance(r, AQ) and r.c == 0 and isinstance(l, Lin) and (l.kr, l.ky) == (0, 1))):
             return ("quot*y",)
+        # affine expressions in x (= quot*y + rem), rem and y, and their floor quotient by a multiple of y:
+        # (kq*quot*y + kr*rem + ky*y) // (c*y) = (kq/c)*quot + floor((kr*t + ky)/c) with t = rem/y, which the cell
+        # bounds (0 < t < 1/2, t = 1/2, 1/2 < t < 1; t = 0 for an exact quotient)
+        if (l in ("X", "NX") or isinstance(l, AX) or r in ("X", "NX") or isinstance(r, AX)):
+            la, ra = _as_ax(l), _as_ax(r)
+            if isinstance(op, ast.Mult):
+                if isinstance(l, Fraction) and ra is not None:
+                    return AX(l * ra.kq, l * ra.kr, l * ra.ky)
+                if isinstance(r, Fraction) and la is not None:
+                    return AX(r * la.kq, r * la.kr, r * la.ky)
+            if isinstance(op, (ast.Add, ast.Sub)) and la is not None and ra is not None:
+                sg = 1 if isinstance(op, ast.Add) else -1
+                return AX(la.kq + sg * ra.kq, la.kr + sg * ra.kr, la.ky + sg * ra.ky)
+            if isinstance(op, ast.FloorDiv) and la is not None and isinstance(r, Lin) and r.kr == 0 and r.ky != 0:
+                c = r.ky
+                if c < 0:       # a // (-c*y) = (-a) // (c*y)
+                    la, c = AX(-la.kq, -la.kr, -la.ky), -c
+                kq = la.kq / c
+                if kq.denominator == 1 and kq in (1, -1, 0):
+                    fl = self.floor_of_affine(la.kr / c, la.ky / c, n)
+                    if fl is not None:
+                        return AQ(fl, int(kq)) if kq != 0 else Fraction(fl)
         # quot // m: how many times m goes into the quotient is nothing the modes are defined by, and nothing a cell
         # determines; comparisons of it are followed both ways (a result that then differs makes the cell ambiguous)
         if isinstance(op, ast.FloorDiv) and isinstance(l, AQ) and isinstance(r, Fraction) and r.denominator == 1 and r > 1:
@@ -618,6 +662,24 @@ class TableEval:
         if isinstance(op, ast.BitAnd) and isinstance(l, AQ) and r == Fraction(1):
             return Fraction((l.s * self.qclass[1] + l.c) % 2)
         self.bad(n, "arithmetic")
+
+    def floor_of_affine(self, a: Fraction, b: Fraction, node):
+        """floor(a*t + b) for t = rem/y in the cell, when the cell determines it (else None)."""
+        import math
+        if self.rem_zero:
+            return math.floor(b)
+        if self.cmp2 == 0:
+            return math.floor(a / 2 + b)
+        lo, hi = (Fraction(0), Fraction(1, 2)) if self.cmp2 < 0 else (Fraction(1, 2), Fraction(1))
+        g0, g1 = a * lo + b, a * hi + b
+        mn, mx = min(g0, g1), max(g0, g1)
+        if mn == mx:
+            return math.floor(mn)
+        # constant on the open interval iff no integer lies strictly inside (mn, mx)
+        first_int_above = math.floor(mn) + 1
+        if first_int_above < mx:
+            return None
+        return math.floor((mn + mx) / 2)
 
     def x_sign(self) -> int:
         """Sign of x = quot*y + rem under y > 0, 0 <= rem < y."""
